@@ -98,6 +98,28 @@ def parser_exec_path(overlay, name):
     return None
 
 
+def dfa_same(overlay, text, att, tmpdir, tag):
+    """Compile two stub profiles with the reference parser over the same tunables: one attached to @{exec_path} with
+    the profile's own preamble, one attached to the literal.  True when the compiled policies are byte-identical
+    (same minimised attachment automaton), False when they differ, None when the parser rejects a stub."""
+    pre = []
+    for l in text.split('\n'):
+        if l.startswith('profile '):
+            break
+        pre.append(l)
+    outs = []
+    for i, a in enumerate(('@{exec_path}', att)):
+        f = os.path.join(tmpdir, 'stub-%s-%d' % (tag, i))
+        with open(f, 'w') as fh:
+            fh.write('\n'.join(pre) + '\nprofile stub %s {\n}\n' % a)
+        q = subprocess.run(['apparmor_parser', '-Q', '-K', '-S', '-b', overlay, '-I', overlay, f], stdout=subprocess.PIPE, stderr=subprocess.PIPE, timeout=120)
+        os.unlink(f)
+        if q.returncode != 0:
+            return None
+        outs.append(q.stdout)
+    return outs[0] == outs[1]
+
+
 def run(ctx):
     ctx.build_go(prebuild=True)
     ctx.tables()
@@ -136,7 +158,7 @@ def run(ctx):
     cfgs = [lib.Cfg('arch', 3, '3.0'), lib.Cfg('debian', 3, '3.0', full=True)]
     if ctx.tier == 'thorough':
         cfgs = [lib.Cfg(d, 3, '3.0', 'none', f) for d in lib.DISTS for f in (False, True)]
-    tot = nbad = nexec = 0
+    tot = nbad = nexec = ndfa = 0
     for cfg in cfgs:
         tree, out, rc = lib.real_build(ctx, cfg)
         if rc != 0:
@@ -150,6 +172,7 @@ def run(ctx):
         texts = {x: open(os.path.join(build, x), encoding='utf-8', errors='replace').read() for x in names}
         with ThreadPoolExecutor(max_workers=16) as ex:
             eps = dict(zip(names, ex.map(lambda x: parser_exec_path(overlay, x) if '@{exec_path}' in texts[x] else None, names)))
+        big = []
         for x in names:
             ep = eps[x]
             if ep is None:
@@ -166,6 +189,8 @@ def run(ctx):
             try:
                 a, b = lang([att]), lang(ep)
             except (ValueError, OverflowError):
+                # too many alternatives to enumerate: compare the compiled attachment automata instead
+                big.append(x)
                 continue
             if a != b:
                 nbad += 1
@@ -176,6 +201,20 @@ def run(ctx):
                 if nbad <= 40:
                     ctx.violation('%s: the attachment of %s does not match the same paths as @{exec_path}: lost %s, added %s' % (
                         cfg.name(), x, sorted(b - a)[:3], sorted(a - b)[:3]), {'config': cfg.name(), 'file': x, 'attachment': att, 'exec_path_expanded_by_parser': ep})
+        with ThreadPoolExecutor(max_workers=16) as ex:
+            same = list(ex.map(lambda x: dfa_same(overlay, texts[x], header_attachment(texts[x]), ctx.scratch, cfg.name() + x), big))
+        ndfa += len(big)
+        for x, ok in zip(big, same):
+            if ok:
+                continue
+            nbad += 1
+            kid = 'K_builtinTunables:%s' % x.replace('.apparmor.d', '')
+            if ctx.known_finding(kid):
+                nbad -= 1
+                continue
+            ctx.violation('%s: the attachment of %s does not compile to the same automaton as @{exec_path} under the shipped tunables (%s)' % (
+                cfg.name(), x, 'stub rejected' if ok is None else 'compiled policies differ'),
+                {'config': cfg.name(), 'file': x, 'attachment': header_attachment(texts[x]), 'exec_path_expanded_by_parser': eps[x][:6]})
         # exec directives: generated rules vs the targets' @{exec_path}
         src = {}
         for d, _, files in os.walk(os.path.join(lib.REPO, 'apparmor.d')):
@@ -223,11 +262,11 @@ def run(ctx):
         shutil.rmtree(overlay, ignore_errors=True)
     ctx.count_distinct(ops)
     ctx.cov['evaluations'] += tot + nexec
-    ctx.cov['search']['built_attachments'] = {'configs': len(cfgs), 'attachments_compared': tot, 'exec_directive_targets': nexec, 'differing': nbad}
+    ctx.cov['search']['built_attachments'] = {'configs': len(cfgs), 'attachments_compared': tot, 'exec_directive_targets': nexec, 'differing': nbad, 'compared_as_compiled_automata': ndfa}
     ctx.sample({'op': ops[0], 'real_output': go[0][:400]})
     ctx.cov['rule'] = ('every built profile with an @{exec_path} attachment: the literal header attachment vs the expansion of @{exec_path} '
                        'printed by apparmor_parser -D expanded-variables on the same built file (shipped tunables), compared as sets of '
-                       'brace-free patterns; the same for the rules generated by every exec directive; generated preambles for the nesting')
+                       'brace-free patterns, or, when there are too many alternatives to enumerate, as compiled automata of two stub profiles (apparmor_parser -Q -K -S, byte-identical); the same for the rules generated by every exec directive; generated preambles for the nesting')
     if broken and not any(c for _, c, _ in ctx.violations):
         ctx.violation('obligation or correspondence broken: ' + '; '.join(broken)[:600], {'broken': broken}, concrete=False)
     ctx.cov['broken'] += broken
